@@ -23,12 +23,36 @@
 //!  * find_all_paths = all SHORTEST paths (doc comment); find_variable_paths with
 //!    allow_cycles=false = all simple paths (no repeated node) with min <= hops <= max, paths that
 //!    differ only in a parallel edge are different paths.
+//!  * find_variable_paths with allow_cycles=true (C18.varpaths.cycles): the property text says "Variable-length matches
+//!    return exactly the simple (or, when cycles are allowed, all) paths within the requested hop bounds"; the engine's
+//!    doc comment only says "Whether to allow cycles in paths".  "All paths" is checked as ALL WALKS: every sequence of
+//!    legal steps from the source that ends at the target after min <= hops <= max steps; nodes AND edges may repeat, the
+//!    walk may run through the source and through the target any number of times (a walk that reaches the target early,
+//!    leaves it and comes back within the bounds is a different path and must be returned too), a self-loop is one step
+//!    u -> u, parallel edges give different paths.  No narrower reading ("edges may not repeat", "stop at the first
+//!    arrival at the target") is stated anywhere, and the text opposes "simple" to "all".  Node filter: as for the simple
+//!    case, every node entered other than the target must satisfy it.  The clause compares the SET of distinct returned
+//!    (node sequence, edge sequence) pairs with the brute-force set, and requires truncated == false, paths_found == number
+//!    of returned paths, min/max_length == shortest/longest walk.  The domain keeps every specification set below the
+//!    default max_paths limit (1000); a query whose brute-force set reaches it is skipped (walks over directed self-loops
+//!    under Direction::Both are counted once per orientation for this purpose only); no query of the quick tier is skipped.
+//!  * C18.varpaths.cycles.unique: the same calls, "no path is returned twice" (returned list has no duplicate and
+//!    paths_found == number of distinct paths).  Kept as a separate clause because it is the only part of the walk
+//!    semantics with two defensible readings: under Direction::Both a DIRECTED self-loop u -> u can be stepped "along" and
+//!    "against" its direction, both steps are u -> u over the same edge.  The result type (`Path { nodes, edges }`) cannot
+//!    tell the two apart, so they are the same path of the property text and the clause demands it once (the engine itself
+//!    removes the corresponding duplicate for undirected edges).
+//!  * filtered find_path (C18.path.valid / .optimal): besides the positional types, the edge filter t == "B" is used so that
+//!    the first created edge is a rejected one, and `family_filtered` enumerates the edge types explicitly: a node that is
+//!    first seen through a rejected edge (or through a node-filter-rejected neighbour) must still be reachable through a
+//!    later accepted edge, and the answer must be a fewest-hop qualifying path (PathNotFound only if there is none).
 //!  * k-core / triangles(undirected) / biconnectivity are defined on the underlying simple
 //!    undirected graph (direction dropped, parallel edges merged, self-loops dropped), MST on the
 //!    underlying undirected multigraph, SCC on the Outgoing step relation.
 //!
 //! Domain: see `run` (quick: every ordered edge sequence of <= 3 edges and every 4-edge multiset on <= 3 nodes, all
-//! (start,end) pairs, + whole-graph algorithms on 4 nodes; thorough: 4 nodes / 4 edges + seeded random graphs to 10 nodes).
+//! (start,end) pairs, + whole-graph algorithms on 4 nodes; thorough: 4 nodes / 4 edges + seeded random graphs to 10 nodes;
+//! both tiers: `family_filtered` (typed edges, filtered find_path) and `family_cycles` (4-node graphs with cycles through the target)).
 //! The exhaustive enumerations walk ONE engine per node count depth-first (create_edge to extend, delete_edge to
 //! backtrack; TensorStore::new costs ~1 ms, so a fresh engine per graph would not fit the time budget); the engine's
 //! current graph is always exactly the case graph, and every failure is re-evaluated on freshly built engines before it is
@@ -63,9 +87,11 @@ enum K { Path, Weighted, AllPaths, Var, Trav, Astar, Scc, Mst, Kcore, Tri, Bicon
 /// `excl` = bitmask of nodes excluded by the node filter (idx != i for every excluded i),
 /// `prop` = weight property 0 "w", 1 "w2", 2 "wn", 3 "nope" (absent => default 1.0), `und` = undirected flag.
 #[derive(Clone, Copy, Debug)]
-struct Q { k: K, s: usize, t: usize, min: usize, max: usize, dir: Dir, ty: Option<u8>, et: Option<u8>, excl: u8, prop: u8, und: bool }
+struct Q { k: K, s: usize, t: usize, min: usize, max: usize, dir: Dir, ty: Option<u8>, et: Option<u8>, excl: u8, prop: u8, und: bool, cyc: bool }
 
-const Q0: Q = Q { k: K::Scc, s: 0, t: 0, min: 0, max: 0, dir: Dir::Out, ty: None, et: None, excl: 0, prop: 0, und: false };
+const Q0: Q = Q { k: K::Scc, s: 0, t: 0, min: 0, max: 0, dir: Dir::Out, ty: None, et: None, excl: 0, prop: 0, und: false, cyc: false };
+/// `VariableLengthConfig::max_paths` default: the exact-set clauses are only evaluated when the specification has fewer paths
+const MAX_PATHS: usize = 1000;
 const PROPS: [&str; 4] = ["w", "w2", "wn", "nope"];
 const TYPES: [&str; 2] = ["A", "B"];
 const MISSING_ID: u64 = 987_654;
@@ -88,8 +114,11 @@ fn dir_name(d: Dir) -> &'static str { match d { Dir::Out => "out", Dir::In => "i
 
 fn case_json(g: &G, q: &Q) -> Value {
     let es: Vec<Value> = g.es.iter().map(|e| json!([e.f, e.t, u8::from(e.d), e.ty, e.w, e.w2, e.wn])).collect();
-    json!({"n": g.n, "edges": es, "q": {"k": k_name(q.k), "s": q.s, "t": q.t, "min": q.min, "max": q.max, "dir": dir_name(q.dir),
-           "ty": q.ty, "et": q.et, "excl": q.excl, "prop": PROPS[q.prop as usize], "und": q.und}})
+    let mut c = json!({"n": g.n, "edges": es, "q": {"k": k_name(q.k), "s": q.s, "t": q.t, "min": q.min, "max": q.max, "dir": dir_name(q.dir),
+           "ty": q.ty, "et": q.et, "excl": q.excl, "prop": PROPS[q.prop as usize], "und": q.und}});
+    // "cyc" (allow_cycles) is only written when set, so that the case format of the older obligations is unchanged
+    if q.cyc { c["q"]["cyc"] = json!(true); }
+    c
 }
 
 fn parse_case(c: &Value) -> Result<(G, Q), String> {
@@ -117,7 +146,7 @@ fn parse_case(c: &Value) -> Result<(G, Q), String> {
     let dir = match q["dir"].as_str().unwrap_or("out") { "in" => Dir::In, "both" => Dir::Both, _ => Dir::Out };
     let prop = PROPS.iter().position(|p| Some(*p) == q["prop"].as_str()).unwrap_or(0) as u8;
     Ok((G { n, es }, Q { k, s: us("s"), t: us("t"), min: us("min"), max: us("max"), dir, ty: o8("ty"), et: o8("et"),
-                         excl: us("excl") as u8, prop, und: q["und"].as_bool().unwrap_or(false) }))
+                         excl: us("excl") as u8, prop, und: q["und"].as_bool().unwrap_or(false), cyc: q["cyc"].as_bool().unwrap_or(false) }))
 }
 
 // ---------------------------------------------------------------- the real graph
@@ -232,6 +261,26 @@ fn spec_simple_paths(g: &G, s: usize, t: usize, min: usize, max: usize, dir: Dir
         if es.len() >= max { return; }
         for (v, k) in steps(g, u, dir, ef) {
             if ns.contains(&v) || (v != t && excluded(excl, v)) { continue; }
+            ns.push(v); es.push(k);
+            rec(g, v, t, min, max, dir, ef, excl, ns, es, out);
+            ns.pop(); es.pop();
+        }
+    }
+    let mut out = vec![];
+    rec(g, s, t, min, max, dir, ef, excl, &mut vec![s], &mut vec![], &mut out);
+    out.sort();
+    out
+}
+
+/// all WALKS s -> t with min <= hops <= max (nodes and edges may repeat, the walk may pass through s and t any number
+/// of times); an excluded node may only be entered as the target
+#[allow(clippy::too_many_arguments)]
+fn spec_walks(g: &G, s: usize, t: usize, min: usize, max: usize, dir: Dir, ef: &EF, excl: u8) -> Vec<P> {
+    fn rec(g: &G, u: usize, t: usize, min: usize, max: usize, dir: Dir, ef: &EF, excl: u8, ns: &mut Vec<usize>, es: &mut Vec<usize>, out: &mut Vec<P>) {
+        if u == t && es.len() >= min && es.len() <= max { out.push((ns.clone(), es.clone())); }
+        if es.len() >= max || out.len() > 4 * MAX_PATHS { return; }
+        for (v, k) in steps(g, u, dir, ef) {
+            if v != t && excluded(excl, v) { continue; }
             ns.push(v); es.push(k);
             rec(g, v, t, min, max, dir, ef, excl, ns, es, out);
             ns.pop(); es.pop();
@@ -395,30 +444,48 @@ fn eval(g: &G, b: &Built, q: &Q, sink: Sink) -> bool {
             let mut cfg = VariableLengthConfig::with_hops(q.min, q.max).direction(direction(q.dir));
             if let Some(t) = q.ty { cfg = cfg.edge_type(TYPES[t as usize]); }
             if let Some(f) = mk_filter(g, q.et, q.excl) { cfg = cfg.with_filter(f); }
+            if q.cyc { cfg = cfg.allow_cycles(true); }
+            let ob: &'static str = if q.cyc { "C18.varpaths.cycles" } else { "C18.variable" };
+            let kind = if q.cyc { "walks (cycles allowed)" } else { "simple paths" };
+            let ef = EF { ty: q.ty, et: q.et };
+            // the exact-set clause needs an untruncated answer: the domain is chosen so that this never skips a case
+            let want = if missing.is_some() { vec![] } else if q.cyc { spec_walks(g, q.s, q.t, q.min, q.max, q.dir, &ef, q.excl) }
+                       else { spec_simple_paths(g, q.s, q.t, q.min, q.max, q.dir, &ef, q.excl) };
+            // (a step over a directed self-loop under Direction::Both counts twice: the reading under which the engine lists such
+            // a walk once per orientation -- see C18.varpaths.cycles.unique -- must not run into the limit either)
+            let twice = |k: &usize| q.cyc && q.dir == Dir::Both && g.es[*k].d && g.es[*k].f == g.es[*k].t;
+            let load: usize = want.iter().map(|p| 1usize << p.1.iter().filter(|k| twice(k)).count().min(12)).sum();
+            if load >= MAX_PATHS { return false; }
             let r = b.e.find_variable_paths(b.id(q.s), b.id(q.t), cfg);
             if missing.is_some() {
-                sink("C18.variable", node_not_found(&r, MISSING_ID), &|| format!("find_variable_paths with a missing endpoint = {r:?}, expected NodeNotFound"));
+                sink(ob, node_not_found(&r, MISSING_ID), &|| format!("find_variable_paths with a missing endpoint = {r:?}, expected NodeNotFound"));
                 return false;
             }
             if excluded(q.excl, q.s) || excluded(q.excl, q.t) { return false; }
-            let ef = EF { ty: q.ty, et: q.et };
-            let want = spec_simple_paths(g, q.s, q.t, q.min, q.max, q.dir, &ef, q.excl);
             let verdict: Result<(), String> = match &r {
                 Ok(vp) => {
                     let mut got = vec![];
                     let mut bad = None;
                     for p in &vp.paths { match (b.nodes(&p.nodes), b.edges(&p.edges)) { (Ok(a), Ok(c)) => got.push((a, c)), (Err(e), _) | (_, Err(e)) => bad = Some(e) } }
                     got.sort();
+                    if q.cyc {
+                        // multiplicity is its own clause (see the module doc): the exact-set clause compares the distinct paths
+                        let returned = got.len();
+                        got.dedup();
+                        let dups = returned - got.len();
+                        sink("C18.varpaths.cycles.unique", bad.is_some() || (dups == 0 && vp.stats.paths_found == got.len()),
+                             &|| format!("find_variable_paths returned {returned} paths of which only {} are distinct (stats.paths_found = {}): {:?}", got.len(), vp.stats.paths_found, vp.paths));
+                    }
                     let lens: Vec<usize> = want.iter().map(|p| p.1.len()).collect();
                     if let Some(e) = bad { Err(e) }
-                    else if got != want { Err(format!("paths (node idx, edge idx) {got:?} but the simple paths within [{}, {}] hops are {want:?}", q.min, q.max)) }
-                    else if vp.stats.paths_found != want.len() || vp.stats.truncated || vp.stats.min_length != lens.iter().min().copied() || vp.stats.max_length != lens.iter().max().copied() {
+                    else if got != want { Err(format!("paths (node idx, edge idx) {got:?} but the {kind} within [{}, {}] hops are {want:?}", q.min, q.max)) }
+                    else if (!q.cyc && vp.stats.paths_found != want.len()) || vp.stats.paths_found != vp.paths.len() || vp.stats.truncated || vp.stats.min_length != lens.iter().min().copied() || vp.stats.max_length != lens.iter().max().copied() {
                         Err(format!("stats {:?} inconsistent with the {} returned paths", vp.stats, want.len()))
                     } else { Ok(()) }
                 },
                 Err(e) => Err(format!("unexpected error {e:?}")),
             };
-            sink("C18.variable", verdict.is_ok(), &|| format!("find_variable_paths: {}", verdict.clone().err().unwrap_or_default()));
+            sink(ob, verdict.is_ok(), &|| format!("find_variable_paths: {}", verdict.clone().err().unwrap_or_default()));
             !want.is_empty() && q.max > 0
         },
         K::Trav => {
@@ -734,6 +801,44 @@ fn queries(g: &G, level: Level) -> Vec<Q> {
     qs
 }
 
+/// Queries added after the original per-graph query set (kept separate so that the order of the older cases is unchanged):
+///  * find_path with the edge filter t == "B": with the positional types A,B,A,B the FIRST created edge is then a
+///    rejected one (parallel edges with the rejected edge created first, a node first reached through a rejected edge);
+///  * find_variable_paths with allow_cycles(true) (C18.varpaths.cycles).
+fn extra_queries(g: &G, level: Level) -> Vec<Q> {
+    let n = g.n;
+    let mut qs = vec![];
+    if level == Level::AlgosOnly { return qs; }
+    // 4-node enumerations (thorough tier only): the light selection, the time budget of the tier is spent on the older queries
+    let level = if n >= 4 { Level::Light } else { level };
+    let masks = 1u8 << n;
+    let (full, light) = (level == Level::Full, level == Level::Light);
+    let var = |s: usize, t: usize, min: usize, max: usize, dir: Dir| Q { k: K::Var, s, t, min, max, dir, cyc: true, ..Q0 };
+    for s in 0..n {
+        for t in 0..n {
+            let free: Vec<u8> = (0..masks).filter(|m| !excluded(*m, s) && !excluded(*m, t)).collect();
+            if full { for excl in 0..masks { qs.push(Q { k: K::Path, s, t, et: Some(1), excl, ..Q0 }); } }
+            else if light { qs.push(Q { k: K::Path, s, t, et: Some(1), ..Q0 }); }
+            else { for excl in &free { qs.push(Q { k: K::Path, s, t, et: Some(1), excl: *excl, ..Q0 }); } }
+            if full {
+                for min in 0..=n { for max in min..=n { qs.push(var(s, t, min, max, Dir::Out)); } }
+                for dir in [Dir::In, Dir::Both] { for (min, max) in [(0, n), (1, 1), (2, n)] { qs.push(var(s, t, min, max, dir)); } }
+                qs.push(Q { ty: Some(0), ..var(s, t, 1, n, Dir::Out) });
+                qs.push(Q { et: Some(1), ..var(s, t, 1, n, Dir::Both) });
+                for excl in free.iter().filter(|m| **m != 0) { qs.push(Q { excl: *excl, ..var(s, t, 0, n, Dir::Out) }); }
+            } else if light {
+                qs.push(var(s, t, 1, n.min(3), Dir::Both));
+            } else {
+                qs.push(var(s, t, 0, n, Dir::Out));
+                qs.push(var(s, t, 1, n, Dir::Both));
+                qs.push(Q { et: Some(0), ..var(s, t, 2, n, Dir::In) });
+            }
+        }
+    }
+    if !light { qs.push(Q { s: n, ..var(0, 0, 0, 1, Dir::Out) }); qs.push(Q { t: n, ..var(0, 0, 0, 1, Dir::Out) }); }
+    qs
+}
+
 fn algo_queries(qs: &mut Vec<Q>) {
     qs.push(Q { k: K::Scc, ..Q0 });
     qs.push(Q { k: K::Mst, prop: 0, ..Q0 });
@@ -780,6 +885,7 @@ fn run_query(rep: &mut Report, g: &G, b: &Built, q: &Q, pooled: bool) {
 
 fn run_graph(rep: &mut Report, g: &G, b: &Built, level: Level, pooled: bool) {
     for q in &queries(g, level) { run_query(rep, g, b, q, pooled); }
+    for q in &extra_queries(g, level) { run_query(rep, g, b, q, pooled); }
 }
 
 /// One engine reused along a depth-first enumeration: extending the graph = create_edge, backtracking = delete_edge.
@@ -790,7 +896,14 @@ impl Pool {
     fn new(n: usize) -> Self { let g = G { n, es: vec![] }; Self { b: build(&g), g } }
     fn push(&mut self, o: (usize, usize, bool)) {
         let k = self.g.es.len() % 4;
-        let ed = E { f: o.0, t: o.1, d: o.2, ty: POS_TY[k], w: POS_W[k], w2: POS_W2[k], wn: POS_WN[k] };
+        self.push_e(E { f: o.0, t: o.1, d: o.2, ty: POS_TY[k], w: POS_W[k], w2: POS_W2[k], wn: POS_WN[k] });
+    }
+    /// edge with an explicit type (the other attributes stay positional)
+    fn push_typed(&mut self, o: (usize, usize, bool), ty: u8) {
+        let k = self.g.es.len() % 4;
+        self.push_e(E { f: o.0, t: o.1, d: o.2, ty, w: POS_W[k], w2: POS_W2[k], wn: POS_WN[k] });
+    }
+    fn push_e(&mut self, ed: E) {
         let mut p = HashMap::new();
         p.insert("w".to_string(), PropertyValue::Float(ed.w));
         p.insert("w2".to_string(), PropertyValue::Int(ed.w2));
@@ -859,6 +972,8 @@ fn random_queries(g: &G, rng: &mut Rng) -> Vec<Q> {
             qs.push(Q { k: K::Var, s, t, min: 0, max: 3, dir: Dir::In, et: Some(0), excl, ..Q0 });
             qs.push(Q { k: K::Astar, s, t, prop: rng.below(2) as u8, ..Q0 });
             qs.push(Q { k: K::Astar, s, t, prop: 3, dir: Dir::Both, ..Q0 });
+            qs.push(Q { k: K::Var, s, t, min: 1, max: 3, cyc: true, ..Q0 });
+            qs.push(Q { k: K::Path, s, t, et: Some(1), ..Q0 });
         }
         for dir in [Dir::Out, Dir::In, Dir::Both] { qs.push(Q { k: K::Trav, s, max: rng.below(5) as usize, dir, ..Q0 }); }
         qs.push(Q { k: K::Trav, s, max: 3, ty: Some(0), ..Q0 });
@@ -868,7 +983,71 @@ fn random_queries(g: &G, rng: &mut Rng) -> Vec<Q> {
     qs
 }
 
-const OBLIGATIONS: [(&str, &str); 14] = [
+// ---------------------------------------------------------------- added families (filtered find_path, cycles)
+
+/// F-filter (C18.path.valid / C18.path.optimal): graphs whose edge TYPES are enumerated explicitly (not by position), so that
+/// every placement of accepted / rejected edges occurs, in every creation order:
+///  (a) every ordered sequence of <= 3 typed non-loop edges on 3 nodes (18 options: 9 (from, to, directed) x type A/B), find_path
+///      with the edge filter t == "A" for every (s, t) (<= 2 edges: and every node-filter mask that keeps s and t);
+///  (b) 4 nodes: A -closed-> C, A -open-> B -open-> C -open-> D (the shortest qualifying path to C and D enters C through the
+///      later, accepted edge, C is first seen through the rejected one), every creation order x every directed/undirected
+///      choice; (c) the same with a rejected edge parallel to A -open-> B, every creation order.  Filter t == "B", all (s, t).
+fn family_filtered(rep: &mut Report) {
+    let opts = edge_options(3, false);
+    fn rec(p: &mut Pool, opts: &[(usize, usize, bool)], rep: &mut Report) {
+        let n = p.g.n;
+        for s in 0..n { for t in 0..n { for excl in 0..(if p.g.es.len() < 3 { 1u8 << n } else { 1 }) {
+            if excluded(excl, s) || excluded(excl, t) { continue; }
+            run_query(rep, &p.g, &p.b, &Q { k: K::Path, s, t, et: Some(0), excl, ..Q0 }, true);
+        } } }
+        if p.g.es.len() == 3 { return; }
+        for o in opts { for ty in 0..2 { p.push_typed(*o, ty); rec(p, opts, rep); p.pop(); } }
+    }
+    rec(&mut Pool::new(3), &opts, rep);
+    // (b), (c)
+    let base: [((usize, usize), u8); 5] = [((0, 2), 0), ((0, 1), 1), ((1, 2), 1), ((2, 3), 1), ((0, 1), 0)];
+    fn perms(k: usize, cur: &mut Vec<usize>, out: &mut Vec<Vec<usize>>) {
+        if cur.len() == k { out.push(cur.clone()); return; }
+        for i in 0..k { if !cur.contains(&i) { cur.push(i); perms(k, cur, out); cur.pop(); } }
+    }
+    for k in [4usize, 5] {
+        let mut orders = vec![];
+        perms(k, &mut vec![], &mut orders);
+        for order in &orders { for und in 0..(if k == 4 { 16u32 } else { 1 }) {
+            let mut p = Pool::new(4);
+            for &i in order { let ((f, t), ty) = base[i]; p.push_typed((f, t, und >> i & 1 == 0), ty); }
+            for s in 0..4 { for t in 0..4 { run_query(rep, &p.g, &p.b, &Q { k: K::Path, s, t, et: Some(1), ..Q0 }, false); } }
+        } }
+    }
+}
+
+/// F-cycle (C18.varpaths.cycles, and C18.variable on the same graphs): 4 nodes, the path 0 -> 1 -> 2 plus every subset of
+/// <= 3 of 11 decorations that put cycles through node 2 (back edge 2 -> 1, self-loops on 2 (directed and undirected), an
+/// undirected and a directed parallel edge 1 -- 2 / 1 -> 2, the directed cycle 2 -> 3 -> 1 / 2 -> 3 -> 2, an undirected edge
+/// 2 -- 3, a chord 0 -> 2, a self-loop on the source); every (s, t); allow_cycles in {true, false};
+/// Outgoing with hops (1,4), (0,3), (2,4), (3,3); Incoming (1,3); Both (1,3), (2,3); edge type A only; edge filter t == "B" with node 3 excluded.
+fn family_cycles(rep: &mut Report) {
+    let deco: [(usize, usize, bool); 11] = [(2, 1, true), (2, 2, true), (1, 2, false), (1, 2, true), (2, 3, true), (3, 2, true), (3, 1, true), (0, 2, true),
+                                            (2, 3, false), (0, 0, true), (2, 2, false)];
+    let mut subsets: Vec<Vec<usize>> = vec![vec![]];
+    for a in 0..deco.len() { subsets.push(vec![a]); for b in a + 1..deco.len() { subsets.push(vec![a, b]); for c in b + 1..deco.len() { subsets.push(vec![a, b, c]); } } }
+    for sub in &subsets {
+        let mut p = Pool::new(4);
+        p.push((0, 1, true));
+        p.push((1, 2, true));
+        for &i in sub { p.push(deco[i]); }
+        for s in 0..4 { for t in 0..4 { for cyc in [true, false] {
+            let v = |min: usize, max: usize, dir: Dir| Q { k: K::Var, s, t, min, max, dir, cyc, ..Q0 };
+            let qs = [v(1, 4, Dir::Out), v(0, 3, Dir::Out), v(2, 4, Dir::Out), v(3, 3, Dir::Out), v(1, 3, Dir::In), v(1, 3, Dir::Both), v(2, 3, Dir::Both),
+                      Q { ty: Some(0), ..v(1, 4, Dir::Out) }, Q { et: Some(1), excl: 8, ..v(1, 3, Dir::Both) }];
+            for q in &qs { run_query(rep, &p.g, &p.b, q, false); }
+        } } }
+    }
+}
+
+const OBLIGATIONS: [(&str, &str); 16] = [
+    ("C18.varpaths.cycles", "GraphEngine::find_variable_paths with VariableLengthConfig::allow_cycles(true)"),
+    ("C18.varpaths.cycles.unique", "GraphEngine::find_variable_paths with VariableLengthConfig::allow_cycles(true)"),
     ("C18.path.valid", "GraphEngine::find_path"), ("C18.path.optimal", "GraphEngine::find_path"),
     ("C18.weighted.valid", "GraphEngine::find_weighted_path"), ("C18.weighted.optimal", "GraphEngine::find_weighted_path"),
     ("C18.weighted.negative", "GraphEngine::find_weighted_path"),
@@ -878,6 +1057,13 @@ const OBLIGATIONS: [(&str, &str); 14] = [
     ("C18.algos.biconnected", "GraphEngine::biconnected_components"), ("C18.algos.astar", "GraphEngine::astar_path"),
 ];
 
+const ADDED: &str = "On every enumerated graph additionally: find_path with edge filter t==B (first created edge rejected) and find_variable_paths with \
+    allow_cycles(true) compared with the brute-force set of ALL walks within the hop bounds (FULL: every hop pair Outgoing, 3 pairs Incoming/Both, type / edge / node filters; \
+    REDUCED: 3 queries; LIGHT: 1). F-filter: every ordered sequence of <= 3 TYPED non-loop edges on 3 nodes (18 options), find_path with edge filter t==A, all pairs (<= 2 edges: all \
+    node masks); 4 nodes A-closed->C, A-open->B-open->C-open->D in all 24 creation orders x 16 directed/undirected choices, and with a rejected edge parallel to A->B in all 120 orders. \
+    F-cycle: 4 nodes, path 0->1->2 plus every subset of <= 3 of 11 decorations (back edge, directed/undirected self-loops on the target, parallel and undirected edges at the target, \
+    directed cycles 2->3->1 / 2->3->2, chord, self-loop on the source): 232 graphs x 16 pairs x allow_cycles in {true,false} x 9 hop/direction/filter combinations";
+
 const COMMON: &str = "multigraphs with edge = (from, to, directed|undirected) incl. self-loops and parallel edges; attributes by position: type A,B,A,B; w 0,1,2.5,4; \
     w2 (Int) 1,1,0,3; wn -1,1,0,2.5; every (start,end) pair plus a missing node id; query sets FULL = every node-filter mask x edge filter none/A, every hop pair 0<=min<=max<=n, \
     3 directions, traverse depth 0..=n; REDUCED = every function/direction/filter kind with fewer combinations; LIGHT = unfiltered core of every function";
@@ -886,10 +1072,10 @@ pub fn run(tier: Tier, seed: u64) -> Report {
     let thorough = tier == Tier::Thorough;
     let domain = if thorough {
         format!("{COMMON}. Exhaustive: all ORDERED edge sequences of <= 3 edges on 1..=3 nodes (FULL) and on 4 nodes (REDUCED); all edge multisets of 4 edges on 3 nodes (LIGHT) \
-                 and on 4 nodes (REDUCED). Not exhaustive: 400 seeded random graphs with 5..=10 nodes, <= 14 edges, random attributes incl. weight 1e9, all pairs")
+                 and on 4 nodes (REDUCED). {ADDED}. Not exhaustive: 400 seeded random graphs with 5..=10 nodes, <= 14 edges, random attributes incl. weight 1e9, all pairs")
     } else {
         format!("{COMMON}. Exhaustive: all ORDERED edge sequences on 1..=3 nodes with <= 2 edges (FULL) and with 3 edges (REDUCED); all edge multisets of 4 edges on 3 nodes (LIGHT); \
-                 whole-graph algorithms additionally on all multisets of <= 4 non-loop edges on 4 nodes")
+                 whole-graph algorithms additionally on all multisets of <= 4 non-loop edges on 4 nodes. {ADDED}")
     };
     let mut rep = Report::new("c18_paths", &domain, true,
         &["graph_engine::GraphEngine::find_path", "find_weighted_path", "find_all_paths", "find_variable_paths", "traverse", "strongly_connected_components",
@@ -916,6 +1102,8 @@ pub fn run(tier: Tier, seed: u64) -> Report {
     } else {
         for_multisets(4, &edge_options(4, false), 0, 4, &mut |g, b| run_graph(&mut rep, g, b, Level::AlgosOnly, true));
     }
+    family_filtered(&mut rep);
+    family_cycles(&mut rep);
     let sample = G { n: 3, es: vec![E { f: 0, t: 1, d: true, ty: 0, w: 0.0, w2: 1, wn: -1.0 }, E { f: 2, t: 1, d: false, ty: 1, w: 1.0, w2: 1, wn: 1.0 }] };
     rep.sample(case_json(&sample, &Q { k: K::Path, s: 1, t: 0, ..Q0 }));
     rep.sample(case_json(&sample, &Q { k: K::Var, s: 0, t: 2, min: 1, max: 3, dir: Dir::Both, ..Q0 }));
